@@ -1988,10 +1988,12 @@ class collect(Stream):
     def flush(self, _=None):
         out = tuple(self.cache)
         metadata = list(self.metadata_cache)
-        self._emit(out, metadata)
-        self._release_refs(metadata)
+        # take the batch out first: its emission may feed new elements back
+        # into this node, and those belong to the next batch
         self.cache.clear()
         self.metadata_cache.clear()
+        self._emit(out, metadata)
+        self._release_refs(metadata)
 
 
 @Stream.register_api()
